@@ -66,6 +66,7 @@ type vlTx struct {
 	Cid        int    `json:"cid"`
 	Force      bool   `json:"force"` // chain mode: keep the tx in the block body even if the executor rejects it
 	FdDeny     bool   `json:"fddeny"`
+	SigForeign bool   `json:"sigforeign"` // signed for ANOTHER chain id, then ChainIdHash rewritten to the local one and the hash recomputed
 	VM         *vlVM  `json:"vm"`
 }
 
@@ -276,7 +277,15 @@ func (e *vlEnv) buildTx(t *vlTx, cidHash []byte) *types.Tx {
 	}
 	tx := &types.Tx{Body: body}
 	if k := e.key(t.Signer); k != nil {
-		key.SignTx(tx, k)
+		if t.SigForeign {
+			local := body.ChainIdHash
+			body.ChainIdHash = common.Hasher([]byte("the chain this tx was really signed for"))
+			key.SignTx(tx, k)
+			body.ChainIdHash = local
+			tx.Hash = tx.CalculateTxHash()
+		} else {
+			key.SignTx(tx, k)
+		}
 	} else {
 		tx.Hash = tx.CalculateTxHash()
 	}
